@@ -672,10 +672,10 @@ def tbl11_json_renderers(ctx):
         for arm in m['arms']:
             vs = [v.split('::')[-1] for v in top_pat_variants(arm['pat'])]
             for n in walk(arm['body']):
-                if n.get('k') == 'binary' and n.get('op') == '|=' and n['rhs'].get('k') == 'lit' \
-                        and 'int' in n['rhs']:
+                if n.get('k') == 'binary' and n.get('op') == '|=' and \
+                        astlib.int_value(n['rhs'], ast, f) is not None:
                     for v in vs:
-                        local[v] = int(n['rhs']['int'])
+                        local[v] = astlib.int_value(n['rhs'], ast, f)
                     sigvars |= idents_in(n['lhs'])
         if len(local) >= 2:
             bits = local
@@ -689,9 +689,9 @@ def tbl11_json_renderers(ctx):
     for iff in find(fn, 'if'):
         consts = []
         for n in walk(iff['cond']):
-            if n.get('k') == 'binary' and n.get('op') == '==' and n['rhs'].get('k') == 'lit' \
-                    and 'int' in n['rhs'] and (sigvars & idents_in(n['lhs'])):
-                consts.append(int(n['rhs']['int']))
+            if n.get('k') == 'binary' and n.get('op') == '==' and \
+                    astlib.int_value(n['rhs'], ast, f) is not None and (sigvars & idents_in(n['lhs'])):
+                consts.append(astlib.int_value(n['rhs'], ast, f))
         if not consts:
             continue
         handled = set()
